@@ -66,6 +66,26 @@ def symtuples(tag, kinds, max_len=None):
     return mk
 
 
+def symvalues(tag, kind, max_len=None):
+    """a list of arbitrary length of plain values (e.g. 'bytes:32' hashes), each a function of an abstract element"""
+    def mk(m, name):
+        L = m.p.fresh(name, ListSort)
+        n = m.p.fresh(name + "_len")
+        m.p.assume(n >= 0)
+        if max_len is not None:
+            m.p.assume(n <= max_len)
+        memo = {}
+
+        def elem(kt):
+            kt = z3.simplify(kt if not isinstance(kt, int) else I(kt))
+            key = TKey(kt)
+            if key not in memo:
+                memo[key] = field_value(m, ELEM(L, kt), tag, kind)
+            return memo[key]
+        return m.p.alloc(HList([], pre=(L, n, elem)))
+    return mk
+
+
 def symlist(cls_dotted, subatoms=None, max_len=None, fields=None):
     """kind for Contract.params: a list of arbitrary length of abstract instances of cls;
     `fields` gives attributes that are symbolic functions of the element (see field_value)"""
